@@ -22,6 +22,8 @@ let run () =
   let ck = nat_of_int (int_of_string Sys.argv.(3)) in
   let w = ref (w_init p) in
   let k = ref 0 in
+  (* hypothesis of the no-error / exactly-once theorems (TW/WorkerOnceApp.v): every schedulable type is below LP_INIT *)
+  Printf.printf "T %d\n" (if types_okb p then 1 else 0);
   dump !k p !w;
   iter_lines (fun line ->
     match split line with
